@@ -102,7 +102,7 @@ def pointsto_guard(cmd, timeout, mem_gb):
     pat = re.compile(r'__CPROVER_memory(?!_leak)')
     start = re.compile(r'^\(\d+\) ')
     event = re.compile(r'^\(\d+\) SHARED_(WRITE|READ)\(')
-    merge = re.compile(r'^\(\d+\) __CPROVER_memory#\d+ == (\(\S+ \? )?__CPROVER_memory#\d+( : __CPROVER_memory#\d+\))?\s*(\n\s*guard:[^\n]*)?(\n//[^\n]*)*\s*$')
+    merge = re.compile(r'^\(\d+\) __CPROVER_memory#\d+ == [\s()!&|?:]*((\\guard#\d+|__CPROVER_memory#\d+|TRUE|FALSE)[\s()!&|?:]*)+(\n\s*guard:[^\n]*)?(\n//[^\n]*)*\s*$')
 
     def flush():
         if not cur:
@@ -291,6 +291,7 @@ def _run_obligation(ob, workroot, keep=False):
         if mm:
             res['program_steps'] = int(mm.group(1))
     nprops = 0
+    undecided = 0
     for r in parsed['results']:
         d = r.get('description', '')
         st = r.get('status')
@@ -298,10 +299,19 @@ def _run_obligation(ob, workroot, keep=False):
             res['witnesses'][d[8:]] = (st == 'FAILURE')   # reachable
         else:
             nprops += 1
-            if st != 'SUCCESS':
+            if st == 'FAILURE':
                 res['failures'].append({'property': r.get('property'), 'description': d, 'status': st,
                                         'location': r.get('sourceLocation', {}).get('line')})
+            elif st != 'SUCCESS':
+                undecided += 1
     res['properties_checked'] = nprops
+    if undecided and not res['failures']:
+        # the solver stopped (memory / time) before deciding every property: neither a proof nor a counterexample
+        res['verdict'] = 'inconclusive'
+        errs = ' | '.join(m for m in parsed['messages'] if 'memory' in m.lower() or 'error' in m.lower())
+        res['reason'] = 'cbmc left %d of %d properties undecided (rc=%d) %s' % (undecided, nprops, rc, errs[:300])
+        res['wall_s'] = time.time() - t0
+        return res
     if res['failures']:
         res['verdict'] = 'violated'
         # obtain a trace and replay it natively; failures of the harness/runtime oracles first (a failed pointer check alone is
